@@ -173,10 +173,24 @@ fn main() {
             let seed: u64 = args.get(3).and_then(|s| s.parse().ok()).unwrap_or(1);
             println!("{}", serde_json::to_string_pretty(&c.generate(seed, check::Tier::Quick)).unwrap());
         }
+        Some("exec-cases") => {
+            // a JSON array of cases on stdin; one verdict line per case, in order
+            let id = args.get(2).cloned().unwrap_or_default();
+            let Some(c) = get_check(&id) else { std::process::exit(2) };
+            let Some(cases) = check::read_stdin_json() else { std::process::exit(2) };
+            check::install_watchdog();
+            for case in cases.as_array().cloned().unwrap_or_default() {
+                check::heartbeat(true);
+                let v = c.execute(&case);
+                check::heartbeat(false);
+                println!("{}", serde_json::to_string(&v).unwrap());
+            }
+        }
         Some("exec-case") => {
             let id = args.get(2).cloned().unwrap_or_default();
             let Some(c) = get_check(&id) else { std::process::exit(2) };
             let Some(case) = check::read_stdin_json() else { std::process::exit(2) };
+            check::install_watchdog();
             let v = c.execute(&case);
             println!("{}", serde_json::to_string(&v).unwrap());
         }
